@@ -255,6 +255,7 @@ type Obligation struct {
 	kfUnrestricted bool // the unrestricted form of an obligation with an open known finding (expected to fail)
 	kfName   string
 	Auto     bool // helper obligation of an uncontracted loop: never named in the ledger, always checked
+	Cheap    bool // package sweep: only the short focused query is tried
 }
 
 type Log struct {
@@ -881,6 +882,12 @@ func discharge(l *Log, extraPrelude string, obs []*Obligation, o dischargeOpts) 
 							ob.Agree = append(ob.Agree, r.solver)
 						}
 					}
+					return
+				}
+				if ob.Cheap {
+					// package sweep: what the focused slice cannot prove quickly is simply not claimed
+					ob.SmtFile = ff
+					ob.Result, ob.Solver, ob.Ms, ob.Output = "unknown", best.solver, best.ms, "focused query only (package sweep): "+best.status
 					return
 				}
 			}
